@@ -8,9 +8,10 @@
      mistral/services/triggers.py:get_next_execution_time    -> nxt  (croniter: an oracle, tabulated per case)
      mistral/services/triggers.py:create_cron_trigger, validate_cron_trigger_input -> create
      mistral/api/controllers/v2/resources.py:CronTrigger.remaining_executions (IntegerType(minimum=1)) -> rest_count_ok
-     mistral/db/v2/sqlalchemy/api.py:get_cron_trigger (lookup BY NAME among the rows visible to the trigger's
+     mistral/db/v2/sqlalchemy/api.py:get_cron_trigger (lookup by name-or-id among the rows visible to the trigger's
         project: own project or scope public, `.first()`), update_cron_trigger(query_filter), delete_cron_trigger
-        (check_db_obj_access)                                -> resolve / adv
+        (check_db_obj_access)                                -> resolve / adv; whether advance_cron_trigger passes
+                                                              t.name or t.id: Gen/CronCfg.v (translate/tr_croncfg.py)
      mistral/services/security.py:create_context             -> the project / trust of a start event (e_proj, e_payload)
    Correspondence suite: harness/suites/C17.py (create, run).
    No proofs in this file. *)
